@@ -33,6 +33,7 @@ use tensor_vault::{AttenuationPolicy, Permission, Vault, VaultConfig, VaultError
 /// (and subtracted from the earliest possible one before it is treated as certainly live)
 const MARGIN: Duration = Duration::from_millis(30);
 const MAX_VIOLATIONS_PER_PROGRAM: usize = 6;
+static SEEN_SIGNATURES: std::sync::OnceLock<std::sync::Mutex<HashMap<String, u32>>> = std::sync::OnceLock::new();
 
 // ------------------------------------------------------------------------------------------------
 // access model
@@ -443,18 +444,31 @@ impl<'a> Prog<'a> {
     }
 
     fn violate(&mut self, sig: String, detail: String) {
-        self.violations += 1;
         if !self.reported.insert(sig.clone()) {
             self.r.count("violations_repeated_in_program", 1);
             return;
         }
+        self.violations += 1;
         let tail: Vec<&String> = self.trace.iter().rev().take(14).rev().collect();
         let d = format!(
             "{} | policy {:?} | last ops: {:?}",
             detail, self.model.policy, tail
         );
         let rp = self.replay();
-        self.r.violation(sig, d, rp);
+        // the shared Report keeps at most 40 witnesses in total: keep two per signature process-wide so
+        // that a rare new signature is never crowded out by frequent known ones
+        let nth = {
+            let mut g = SEEN_SIGNATURES.get_or_init(|| std::sync::Mutex::new(HashMap::new())).lock().unwrap_or_else(|e| e.into_inner());
+            let e = g.entry(sig.clone()).or_insert(0u32);
+            *e += 1;
+            *e
+        };
+        if nth <= 2 {
+            self.r.violation(sig, d, rp);
+        } else {
+            self.r.violations_total += 1;
+            self.r.count(&format!("violations_not_kept[{}]", sig), 1);
+        }
     }
 
     fn new_value(&mut self) -> String {
@@ -554,6 +568,25 @@ impl<'a> Prog<'a> {
             } else if certain >= need && denied_by_acl && self.model.exists[secret] {
                 self.r.count("over_denials", 1);
                 self.r.count(&format!("over_denial[{}]", op), 1);
+                // the usual cause: sweeping an expired TTL grant (or revoking) removes every grant edge of
+                // that (holder, secret) pair, also permanent ones made separately
+                let collateral = self.model.grants.iter().any(|g| g.secret == secret && (g.state == GState::Revoked || g.exp.map_or(false, |(_, hi)| hi < t1)));
+                self.r.count(if collateral { "over_denials_next_to_expired_or_revoked_grant" } else { "over_denials_other" }, 1);
+                if !collateral && std::env::var("C14_DEBUG").is_ok() {
+                    eprintln!(
+                        "OVER-DENIAL {} by {} on #{} need {} certain {} | grants {:?} | edges {:?} | policy {:?} | seed {} | tail {:?}",
+                        op,
+                        who,
+                        secret,
+                        need,
+                        certain,
+                        self.model.grants.iter().filter(|g| g.secret == secret).map(|g| format!("{}:L{}:{:?}", g.holder, g.level, g.state)).collect::<Vec<_>>(),
+                        self.model.edges.iter().map(|e| format!("{}-{}->{}", e.from, e.etype, e.to)).collect::<Vec<_>>(),
+                        self.model.policy,
+                        self.case_seed,
+                        self.trace.iter().rev().take(6).collect::<Vec<_>>()
+                    );
+                }
             } else {
                 self.r.count("decisions_dont_care", 1);
             }
